@@ -105,9 +105,21 @@ fn check_utf8(chunks_: &[Vec<u8>], parse: bool, st: &mut Stats) -> Result<(), St
             chunks: &'a [Vec<u8>],
             i: usize,
             off: usize,
+            /// schedule of reads that first fail with ErrorKind::Interrupted (which
+            /// read_from documents as retried): bit k = the k-th read call
+            intr: u64,
+            calls: u32,
+            last_intr: bool,
         }
         impl<'a> std::io::Read for ChunkedReader<'a> {
             fn read(&mut self, buf: &mut [u8]) -> std::io::Result<usize> {
+                let k = self.calls;
+                self.calls += 1;
+                if !self.last_intr && (self.intr >> (k % 64)) & 1 == 1 {
+                    self.last_intr = true;
+                    return Err(std::io::Error::new(std::io::ErrorKind::Interrupted, "EINTR"));
+                }
+                self.last_intr = false;
                 while self.i < self.chunks.len() && self.off >= self.chunks[self.i].len() {
                     self.i += 1;
                     self.off = 0;
@@ -122,7 +134,13 @@ fn check_utf8(chunks_: &[Vec<u8>], parse: bool, st: &mut Stats) -> Result<(), St
                 Ok(n)
             }
         }
-        let mut r = ChunkedReader { chunks: chunks_, i: 0, off: 0 };
+        // deterministic per case: half of the cases see no interruption, the others ~1/4 of the reads
+        let h = hash64(&chunks_);
+        let intr = if h >> 63 == 0 { 0 } else { h & (h >> 7) };
+        if intr != 0 {
+            st.label("read_from with Interrupted reads");
+        }
+        let mut r = ChunkedReader { chunks: chunks_, i: 0, off: 0, intr, calls: 0, last_intr: false };
         let rec2 = Utf8LossyDecoder::new(Rec::default()).read_from(&mut r).map_err(|e| format!("read_from: {e}"))?;
         if rec2.items != exp {
             return Err(format!(
@@ -306,6 +324,9 @@ fn check_enc(label: &str, chunks_: &[Vec<u8>], st: &mut Stats) -> Result<(), Str
     if all.len() > 8192 {
         st.label("encoding_rs: input > 8 KiB (output window)");
     }
+    if chunks_.iter().any(|c| c.len() > 8192) {
+        st.label("encoding_rs: a single chunk > 8 KiB");
+    }
     if multi && (nerr > 0 || exp_s.chars().any(|c| c as u32 >= 0x80)) {
         st.label(&format!("enc:{}", enc.name()));
         st.nontrivial(hash64(&(label, chunks_)), || json!({"encoding":label,"chunks": chunks_.iter().map(|c| hex(c)).collect::<Vec<_>>()}));
@@ -435,7 +456,11 @@ fn gen_enc_bytes_short(s: &mut Src, label: &str, n: usize) -> Vec<u8> {
 fn decode_enc_case(s: &mut Src) -> Case {
     let label = *s.pick(LABELS);
     let b = gen_enc_bytes(s, label);
-    let cuts = chunks::gen_cuts(s, b.len());
+    let mut cuts = chunks::gen_cuts(s, b.len());
+    if b.len() > 8192 && s.chance(128) {
+        // at most one cut: some chunk alone overflows the decoder's output window
+        cuts.truncate(s.below(2));
+    }
     Case {
         encoding: label.into(),
         chunks: chunks::apply_cuts(&b, &cuts).iter().map(|c| hex(c)).collect(),
@@ -445,7 +470,7 @@ fn decode_enc_case(s: &mut Src) -> Case {
 
 pub fn run(ctx: &Ctx) -> Report {
     let mut rep = Report::new(
-        "(1) bounded-exhaustive: every byte string of length <= L over the 25 boundary bytes of the UTF-8 well-formedness table x every partition into chunks (2^(n-1)), through Utf8LossyDecoder into a recording sink, (and through TendrilSink::read_from with short reads; some inputs are repeated past the 4 KiB read buffer), compared item by item (characters and error calls, in order) with std's utf8_chunks()/from_utf8_lossy of the whole input; (2) random UTF-8-structured byte strings (<=40 units: ASCII, valid chars, truncated sequences, surrogates, overlongs, >10FFFF, stray continuations, BOM) x random cut multisets incl. empty chunks, 1/4 of them also parsed through parse_document(..).from_utf8() (HTML and XML drivers) and compared with the tree of the lossy string; (3) each of the 40 encoding_rs encodings: LossyDecoder::new_encoding_rs fed in chunks vs a one-shot decode of the whole input (characters, malformed-sequence errors, pending state at end of stream), inputs biased to lead/trail/escape bytes, surrogates and >8 KiB lengths. Non-trivial: an ill-formed/incomplete sequence or a valid multi-byte character is adjacent to / split by a cut (UTF-8), or >=2 non-empty chunks with non-ASCII output or a malformed sequence (encoding_rs); distinct by hash of (encoding, chunk list).",
+        "(1) bounded-exhaustive: every byte string of length <= L over the 25 boundary bytes of the UTF-8 well-formedness table x every partition into chunks (2^(n-1)), through Utf8LossyDecoder into a recording sink, (and through TendrilSink::read_from with short reads, half of the time with reads that first fail with ErrorKind::Interrupted; some inputs are repeated past the 4 KiB read buffer), compared item by item (characters and error calls, in order) with std's utf8_chunks()/from_utf8_lossy of the whole input; (2) random UTF-8-structured byte strings (<=40 units: ASCII, valid chars, truncated sequences, surrogates, overlongs, >10FFFF, stray continuations, BOM) x random cut multisets incl. empty chunks, 1/4 of them also parsed through parse_document(..).from_utf8() (HTML and XML drivers) and compared with the tree of the lossy string; (3) each of the 40 encoding_rs encodings: LossyDecoder::new_encoding_rs fed in chunks vs a one-shot decode of the whole input (characters, malformed-sequence errors, pending state at end of stream), inputs biased to lead/trail/escape bytes, surrogates and >8 KiB lengths. Non-trivial: an ill-formed/incomplete sequence or a valid multi-byte character is adjacent to / split by a cut (UTF-8), or >=2 non-empty chunks with non-ASCII output or a malformed sequence (encoding_rs); distinct by hash of (encoding, chunk list).",
     );
     rep.assume("std::str::Utf8Chunks / String::from_utf8_lossy and encoding_rs's one-shot decode are the reference decoders");
     run_regressions(ctx, &mut rep, &|v| replay(&ctx.strict_clone(), v));
@@ -505,6 +530,8 @@ pub fn run(ctx: &Ctx) -> Report {
     rep.need("valid multi-byte char split by a cut", 1000);
     rep.need("parser tree compared (html+xml)", 1000);
     rep.need("encoding_rs: input > 8 KiB (output window)", 20);
+    rep.need("read_from with Interrupted reads", 1000);
+    rep.need("encoding_rs: a single chunk > 8 KiB", 20);
     rep
 }
 
